@@ -426,7 +426,23 @@ fn single_case(ctx: &mut Ctx, i: usize, max_deg: usize) {
 // ------------------------------------------------------------------------------------------------
 
 fn multi_case(ctx: &mut Ctx, i: usize, max_deg: usize) {
-    let id = format!("C14/multi/{}", i);
+    multi_case_p(ctx, "C14", i, max_deg)
+}
+
+/// the multi-point cases under another property's id (C09: the two verifier-key derivations interoperate at
+/// every number of points up to the maximum; C10: the multi-point verifier decides its relation)
+pub fn interop(ctx: &mut Ctx, prop: &str) {
+    for i in 0..ctx.n(8, 24) {
+        multi_case_p(ctx, prop, i, 24);
+    }
+    ctx.flush_model(&format!("{}-stream", prop));
+}
+
+fn multi_case_p(ctx: &mut Ctx, prop: &str, i: usize, max_deg: usize) {
+    let id = format!("{}/multi/{}", prop, i);
+    if !ctx.selected(&id) {
+        return;
+    }
     let mut rng = rng_for(ctx.seed, "C14/multi", i as u64);
     let m = if i < 8 { i + 1 } else { range(&mut rng, 1, 8) };
     let k = if i < 8 { 8 - i } else { range(&mut rng, 1, 8) };
